@@ -359,9 +359,14 @@ impl Prop for AfterFrames {
                     o[0] = if use_log_gain { o[0] + f.ln() } else { o[0] * f };
                     o
                 } else if t.chance(0.5) {
-                    // another cepstrum of the same length
+                    // another cepstrum of the same length, at a comparable LEVEL: the admission rule
+                    // below ("responses die out inside half a frame", judged on the measured
+                    // spectrum) says nothing about the tail of an earlier pulse that was e^20 times
+                    // louder (a false alarm of this sub-check's first version, see DESIGN.md 7)
                     let o = gen(t);
-                    if o.len() == spectrum.len() { o } else { spectrum.iter().enumerate().map(|(i, v)| v * 0.5 + 0.1 / (1.0 + i as f64)).collect() }
+                    let mut o: Vec<f64> = if o.len() == spectrum.len() { o } else { spectrum.iter().enumerate().map(|(i, v)| v * 0.5 + 0.1 / (1.0 + i as f64)).collect() };
+                    o[0] = spectrum[0] + t.uniform(-1.0, 1.0);
+                    o
                 } else {
                     // differs in a subset of the coefficients only
                     let mut o = spectrum.clone();
